@@ -18,7 +18,7 @@ from . import c10
 PROPERTY = 'C18'
 LEVEL = 'exploration'
 
-SPLIT_DELIMS = [',', ' ', '\t', '::', ';', ', ', ' | ']      # the last two: multi-character delimiters that begin / end with the padding character
+SPLIT_DELIMS = [',', ' ', '\t', '::', ';', ', ', ' | ', '  ']      # the last two: multi-character delimiters that begin / end with the padding character
 SPLIT_LEN = {'quick': 7, 'thorough': 8}
 FILE_LEN = {'quick': 5, 'thorough': 6}
 FILE_ALPHABET = ['a', '"', ',', ' ', '\n', '\r', '#']
